@@ -299,6 +299,11 @@ print("SHA", h.hexdigest())
     return bad, len(seeds)
 
 
+def replay_scope(unit, obl):
+    """the native replay of this property searches per unit, not per obligation: run it once per unit"""
+    return "unit"
+
+
 def replay(unit, obl):
     if unit == "iteration order":
         bad, n = native_hashseed()
